@@ -12,6 +12,7 @@
   replayed through `step` and the callers' results compared.
 -/
 import Desync.Proofs.DedupProofs
+import Desync.Proofs.WriteDedupProofs
 import Desync.Generated.Facts
 
 namespace Desync.C12
@@ -74,6 +75,81 @@ theorem gen_dedup_shape :
     Gen.dedupMarkDoneShape = modelledMarkDoneShape ∧
     Gen.site_shape_dedup_GetChunk_found = true ∧ Gen.site_shape_dedup_HasChunk_found = true ∧
     Gen.site_shape_dedup_StoreChunk_found = true ∧ Gen.site_shape_dedup_markDone_found = true := by
+  decide
+
+/-! ### reads that overlap a de-duplicated write (writededupqueue.go, `Model/WriteDedup.lean`)
+
+Callers are writers (`StoreChunk` of a chunk with an ID and data) and readers (`GetChunk`); the write
+queue is looked at under its mutex; a reader that finds a write of its ID in flight waits for it. -/
+
+/-- **reads overlapping a write see that chunk**: a reader that found a write of its chunk ID in
+    flight returns exactly the chunk that write's leader handed to the store, with the store's error -/
+theorem overlapping_read_sees_written_chunk (roles : List WDedup.Role) (s : WDedup.St)
+    (h : WDedup.Reachable (WDedup.St.init roles) s)
+    (t d e r : Nat) (ht : s.callers[t]? = some (.rreturned d e r)) :
+    ∃ (id tl : Nat), roles[t]? = some (.reader id) ∧ tl ≠ t ∧ roles[tl]? = some (.writer id d) ∧
+      (r, d, e) ∈ s.upHist ∧
+      ∃ q, s.reqs[r]? = some q ∧ q.id = id ∧ q.done = true ∧ q.val = d ∧ q.err = e :=
+  WDedup.overlapping_read_sees_written_chunk roles s h t d e r ht
+
+/-- the write a reader waits on is in flight at the moment of its look: its leader, a writer of the same
+    ID, is between its registration and its delete -/
+theorem read_joins_only_in_flight_write (roles : List WDedup.Role) (s : WDedup.St)
+    (h : WDedup.Reachable (WDedup.St.init roles) s)
+    (t r : Nat) (s' : WDedup.St) (hs : WDedup.step s (.rpeek t) = some s')
+    (hf : s'.callers[t]? = some (.rwait r)) :
+    ∃ (tl id : Nat), tl ≠ t ∧ roles[t]? = some (.reader id) ∧ (∃ d, roles[tl]? = some (.writer id d)) ∧
+      ((∃ d, s.callers[tl]? = some (WDedup.C.wupstream r d)) ∨ (∃ d e, s.callers[tl]? = some (WDedup.C.wgot r d e)) ∨
+       (∃ d e, s.callers[tl]? = some (WDedup.C.wpublished r d e))) :=
+  WDedup.read_joins_only_in_flight_write roles s h t r s' hs hf
+
+/-- a reader goes on to the upstream store (through `DedupQueue.GetChunk`, the machine above) only when no
+    write of its ID is in flight -/
+theorem read_passes_only_without_write (roles : List WDedup.Role) (s : WDedup.St)
+    (h : WDedup.Reachable (WDedup.St.init roles) s)
+    (t id : Nat) (s' : WDedup.St) (hs : WDedup.step s (.rpeek t) = some s')
+    (hf : s'.callers[t]? = some (.rpass id)) :
+    roles[t]? = some (.reader id) ∧ ∀ (tl : Nat) (c : WDedup.C) (r : Nat) (q : WDedup.Req),
+      s.callers[tl]? = some c → c.wlead = some r → s.reqs[r]? = some q → q.id ≠ id :=
+  WDedup.read_passes_only_without_write roles s h t id s' hs hf
+
+/-- at most one upstream `StoreChunk` per chunk ID is in flight at any time -/
+theorem write_single_flight (roles : List WDedup.Role) (s : WDedup.St)
+    (h : WDedup.Reachable (WDedup.St.init roles) s) (t1 t2 r1 r2 d1 d2 : Nat)
+    (h1 : s.callers[t1]? = some (.wupstream r1 d1)) (h2 : s.callers[t2]? = some (.wupstream r2 d2))
+    (hid : (s.reqs.getD r1 ⟨0, false, 0, 0⟩).id = (s.reqs.getD r2 ⟨0, false, 0, 0⟩).id) : t1 = t2 :=
+  WDedup.write_single_flight roles s h t1 t2 r1 r2 d1 d2 h1 h2 hid
+
+/-- every writer returns the error of an upstream `StoreChunk` of a chunk with its own ID -/
+theorem write_result_is_upstream (roles : List WDedup.Role) (s : WDedup.St)
+    (h : WDedup.Reachable (WDedup.St.init roles) s)
+    (t e r : Nat) (ht : s.callers[t]? = some (.wreturned e r)) :
+    ∃ (id d d' : Nat), roles[t]? = some (.writer id d) ∧ (r, d', e) ∈ s.upHist ∧
+      ∃ q, s.reqs[r]? = some q ∧ q.id = id ∧ q.done = true ∧ q.err = e :=
+  WDedup.write_result_is_upstream roles s h t e r ht
+
+/-- no deadlock, no lost wake-up, and every run ends (at most four steps per caller; a state in which
+    nothing moves has every caller returned or passed on) -/
+theorem write_queue_live (roles : List WDedup.Role) :
+    (∀ s, WDedup.Reachable (WDedup.St.init roles) s → ∀ (t : Nat) (c : WDedup.C), s.callers[t]? = some c → c.final = false →
+      (∃ e s', e.caller = t ∧ WDedup.step s e = some s') ∨
+      (∃ r tl, (c = .wfollower r ∨ c = .rwait r) ∧ tl ≠ t ∧
+        ((∃ d, s.callers[tl]? = some (.wupstream r d) ∧ ∀ e, ∃ s', WDedup.step s (.wupRet tl e) = some s') ∨
+         (∃ d e, s.callers[tl]? = some (.wgot r d e) ∧ ∃ s', WDedup.step s (.wmarkDone tl) = some s')))) ∧
+    (∀ es, WDedup.effSteps (WDedup.St.init roles) es ≤ 4 * roles.length) ∧
+    (∀ s, WDedup.Reachable (WDedup.St.init roles) s → (∀ e, WDedup.step s e = none) →
+      ∀ (t : Nat) (c : WDedup.C), s.callers[t]? = some c → c.final = true) :=
+  ⟨fun s h t c ht hnf => WDedup.no_deadlock roles s h t c ht hnf,
+   WDedup.steps_bounded_init roles,
+   fun s h hst t c ht => WDedup.stuck_only_when_all_final roles s h hst t c ht⟩
+
+/-- **regenerated obligation**: `WriteDedupQueue.StoreChunk` publishes the chunk being written together with
+    the upstream error, and `WriteDedupQueue.GetChunk` looks at the write queue under its lock, waits for a
+    write in flight, and otherwise continues into `DedupQueue.GetChunk` -/
+theorem gen_wdq_shape :
+    Gen.wdqStoreMarkDoneArgs = WDedup.modelledStoreMarkDoneArgs ∧
+    Gen.wdqGetChunkShape = WDedup.modelledReadShape ∧
+    Gen.site_shape_wdq_markDoneArgs_found = true ∧ Gen.site_shape_wdq_GetChunk_found = true := by
   decide
 
 end Desync.C12
